@@ -27,6 +27,7 @@ const (
 	cstBind     = "Bind"
 	cstCombine  = "Combine"
 	cstFor      = "For"
+	cstForPost  = "ForPost"
 	cstLoop     = "Loop"
 	cstWhile    = "While"
 )
